@@ -3,7 +3,7 @@
 //! "-u" unscheduled: shutdown after a burst (family runs), the forget path on real threads (tag 3: the harness
 //! waits for the stream's drop), and a global sink's AttachHandle (tag 4).
 use super::c01::queue_core::*;
-use super::c01::queue_family::{emit_stress, gen_plan, gen_shutdown_big, gen_stress, emit_scheduled, install_subscriber, replay_line, Focus, StressPlan};
+use super::c01::queue_family::{emit_stress, explore, small_plans, gen_plan, gen_shutdown_big, gen_stress, emit_scheduled, install_subscriber, replay_line, Focus, StressPlan};
 use super::c01::queue_sched::attach;
 use crate::common::{Ctx, Out, Rng};
 use crate::sx::{self, Sx};
@@ -116,7 +116,11 @@ pub fn run(ctx: &Ctx) {
         return;
     }
     let t0 = Instant::now();
-    let (n_sched, n_stress, n_forget, n_attach, budget) = if ctx.tier_thorough { (12000, 40, 60, 40, 300.0) } else { (1400, 8, 10, 8, 35.0) };
+    let (bound, per_plan) = if ctx.tier_thorough { (3, 4000) } else { (2, 250) };
+    for plan in small_plans(Focus::Shutdown) {
+        explore(&mut s, &plan, bound, per_plan, &mut rng);
+    }
+    let (n_sched, n_stress, n_forget, n_attach, budget) = if ctx.tier_thorough { (40000, 40, 60, 40, 420.0) } else { (3000, 8, 10, 8, 50.0) };
     for phase in 0..2 {
         if phase == 1 {
             install_subscriber();
